@@ -23,9 +23,16 @@ theorem tInput_inv (h : Inv ps pend w) (htm : TimerOk w) (i : Terminator.Input) 
     exact inv_core_eq (InvC.tsClosed (k := core w) h hts) rfl
   · -- S_stoppingRC --stoppedRC--> S_stoppingD [stop_dilator]
     simp only [tOuts]
+    -- Dilator.stop() first does whatever the tree does to the Cooperator
+    obtain ⟨b, eb⟩ := stopCoop_same { w with ts := .S_stoppingD }
+    have htb : TimerOk ({ w with coopStopped := b } : World) := by
+      have := stopCoop_timerOk { w with ts := .S_stoppingD } htm
+      rw [eb] at this
+      exact this
+    rw [eb]
     by_cases hm : w.hasMgr = true
     · rw [if_pos hm]
-      obtain ⟨e1, e2⟩ := stopRow_inv h hts hm htm
+      obtain ⟨e1, e2⟩ := stopRow_inv (w := { w with coopStopped := b }) h hts hm htb
       rw [andThen_ok e1]
       exact e2
     · rw [if_neg hm]
@@ -164,6 +171,20 @@ theorem step_inv (hps : ps < w.mySide ∨ w.mySide < ps) (h : Inv ps [] w) (htm 
     · split
       · exact connectAs_inv h _
       · exact h
+  | producer pull i =>
+    simp only [step]
+    split
+    · split
+      · exact h
+      · have hofres : ∀ r : Res, (ofRes r).1 = r.1 := by
+          intro r; obtain ⟨a, b⟩ := r; cases b <;> rfl
+        rw [hofres]
+        unfold registerProducer
+        dsimp only
+        split
+        · split <;> exact h
+        · exact h
+    · exact h
   | term i =>
     simp only [step]
     have := tInput_inv (pend := []) h htm i
@@ -292,8 +313,12 @@ theorem tInput_mySide (fuel : Nat) : ∀ (i : Terminator.Input) (v : World), (tI
       · rfl
       · rfl
       · rfl
-      · show ((if u.hasMgr = true then andThen (mInput .k_stop "" 0 u) (fun w1 => (whenStopped w1, none))
-                else tInput f .stoppedD u).1).mySide = u.mySide
+      · show ((if (stopCoop u).hasMgr = true then andThen (mInput .k_stop "" 0 (stopCoop u)) (fun w1 => (whenStopped w1, none))
+                else tInput f .stoppedD (stopCoop u)).1).mySide = u.mySide
+        obtain ⟨b, eb⟩ := stopCoop_same u
+        rw [eb]
+        show _ = ({ u with coopStopped := b } : World).mySide
+        generalize ({ u with coopStopped := b } : World) = u
         split
         · rcases hr : mInput .k_stop "" 0 u with ⟨u', e⟩
           have := (keep_mInput .k_stop "" 0 u).mySide
@@ -419,6 +444,20 @@ theorem step_mySide (v : World) (e : Ev) : (step v e).1.mySide = v.mySide := by
     · split
       · exact connectAs_mySide _ v
       · rfl
+  | producer pull i =>
+    simp only [step]
+    split
+    · split
+      · rfl
+      · have hofres : ∀ r : Res, (ofRes r).1 = r.1 := by
+          intro r; obtain ⟨a, b⟩ := r; cases b <;> rfl
+        rw [hofres]
+        unfold registerProducer
+        dsimp only
+        split
+        · split <;> rfl
+        · rfl
+    · rfl
   | term i =>
     simp only [step]
     have := tInput_mySide termFuel i v
@@ -493,7 +532,7 @@ theorem run_mySide (es : List Ev) (w : World) : (run w es).mySide = w.mySide := 
   | cons e es ih => simp only [run]; rw [ih, step_mySide]
 
 theorem init_timerOk (nl al : Bool) (my : String) : TimerOk (World.init nl al my) := by
-  intro h; simp [World.init] at h
+  constructor <;> intro h <;> simp [World.init] at h
 
 theorem init_inv (nl al : Bool) (my : String) : Inv ps [] (World.init nl al my) := by
   refine ⟨?_, ?_, ?_, ?_, ?_, ?_, ?_, ?_, ?_, ?_, ?_⟩ <;> simp [core, World.init, Manager.init, Terminator.init, active, inConn]
